@@ -38,7 +38,7 @@ unsigned long draw_last;  /* value returned by the most recent draw        */
 
 /* ---- ghost log of the most recent fixed-base table precomputation (monitor of the call's arguments; written by
  * the contract of tmcg_mpz_fpowm_precompute when a caller uses it in place of the body) -------------------------- */
-const void *ghost_pre_tab; size_t ghost_pre_t;
+size_t ghost_pre_tab /* object number of the table */; size_t ghost_pre_t;
 
 /* ---- heap (rule E5): new/delete, failure excluded ----------------------- */
 void *malloc(size_t);
